@@ -12,7 +12,7 @@ RULE = (
     "with leaves 0, 1, 2, -1, 0.5: every algebraic simplifier fires), C (unary chains <=3) and D (every vector/"
     "matrix reduction kind in every depth<=1 context); transitions = API calls on the real code (builder "
     "operations and gradient() requests: each variable occurring, one non-occurring, each twice - memo hit - and "
-    "once through the iterative algorithm); an evaluation = gradient(e,v).evaluate(p) compared with the "
+    "once through the iterative algorithm, and the formula rebuilt as a DAG of shared sub-expression objects through the memoised and the iterative algorithm); an evaluation = gradient(e,v).evaluate(p) compared with the "
     "hand-written second-order jet interpreter at a regular grid point.  Non-trivial = recipe with >=1 variable "
     "and >=1 regular point; distinct by canonical recipe."
 )
@@ -74,8 +74,20 @@ def check_recipe(r, tier, seed, rep=None, want=None):
                 dag = (root, Vd)
         except Exception as ex:
             fails.add("exception:gradient:dag-bottom-up:" + type(ex).__name__, msg=str(ex)[:200])
-    for path in ("recursive", "memo", "iterative", "dag-bottom-up"):
-        if path == "dag-bottom-up" and dag is None:
+    # factory style: every mention of a variable is a new Variable object of that name, and so is `wrt`
+    dup = None
+    if c.names:
+        try:
+            from mc.build import Builder as _B
+
+            bd = _B(params=c.params, duplicate_variables=True)
+            dup = (bd.build(r), bd.variables_for(wrt))
+        except Exception as ex:
+            fails.add("exception:build:duplicate-variable-objects:" + type(ex).__name__, msg=str(ex)[:200])
+    for path in ("recursive", "memo", "iterative", "dag-bottom-up", "dag-iterative", "dupvars-recursive", "dupvars-iterative"):
+        if path.startswith("dag-") and dag is None:
+            continue
+        if path.startswith("dupvars-") and dup is None:
             continue
         for i, var in enumerate(V):
             try:
@@ -84,6 +96,13 @@ def check_recipe(r, tier, seed, rep=None, want=None):
                         ge = autodiff.gradient(c.e, var)
                 elif path == "dag-bottom-up":
                     ge = autodiff.gradient(dag[0], dag[1][i])
+                elif path == "dupvars-recursive":
+                    ge = autodiff.gradient(dup[0], dup[1][i])
+                elif path == "dupvars-iterative":
+                    ge = autodiff._gradient_iterative(dup[0], dup[1][i])
+                elif path == "dag-iterative":
+                    # the explicit-stack algorithm on a DAG: interior nodes shared by several parents
+                    ge = autodiff._gradient_iterative(dag[0], dag[1][i])
                 else:
                     ge = autodiff.gradient(c.e, var)
             except Exception as ex:
